@@ -350,6 +350,36 @@ def _apply(ctx, mesh, ev, hist):
     raise ValueError(ev)
 
 
+def segment_sweep(ctx, name, quick):
+    """grid_from_segments for every subset of the mesh's own domain indices, and - with every element given its own index - for every
+    single element, every pair and (thorough) every triple and every complement of a single element: small selections with high
+    vertex numbers, scattered selections, nearly complete selections."""
+    import itertools
+
+    base = meshes.get(name, ctx.seed)
+    M = base[1].shape[1]
+    n = 0
+    for label, mesh in (("own-domains", base), ("one-domain-per-element", (base[0], base[1], np.arange(M) + 1))):
+        doms = sorted(set(mesh[2].tolist()))
+        if label == "own-domains":
+            subsets = [c for r in range(1, len(doms) + 1) for c in itertools.combinations(doms, r)]
+        else:
+            sizes = [1, 2] if quick else [1, 2, 3]
+            subsets = [c for r in sizes for c in itertools.combinations(doms, r)] + [tuple(x for x in doms if x != y) for y in doms]
+        for segs in subsets:
+            hist = ("%s:%s" % (name, label),)
+            ev = ("segments", tuple(int(x) for x in segs))
+            try:
+                _apply(ctx, mesh, ev, hist)
+            except Exception as exc:  # noqa: BLE001
+                ctx.violation("step/segments/exception:%s" % type(exc).__name__, {"base": hist[0], "history": [list(ev)]}, repr(exc))
+            ctx.transitions += 1
+            ctx.case(("segsweep", name, label, segs), sub="segment-extraction")
+            n += 1
+    ctx.cover("segment_sweep_meshes", name)
+    return n
+
+
 def _canon(mesh):
     v, e, d = mesh
     return (np.ascontiguousarray(v).tobytes(), np.ascontiguousarray(e).tobytes(), np.ascontiguousarray(d).tobytes())
@@ -415,6 +445,10 @@ def subcomplexes(ctx, name, sizes=None):
 
 
 def _base(ctx, name):
+    if ":" in name:
+        nm, label = name.split(":")
+        b = meshes.get(nm, ctx.seed)
+        return b if label == "own-domains" else (b[0], b[1], np.arange(b[1].shape[1]) + 1)
     if "[" in name:
         nm, sub = name.split("[")
         sub = [int(x) for x in sub.rstrip("]").split(",")]
@@ -448,6 +482,11 @@ def run(ctx):
         n += subcomplexes(ctx, "fan5")
         n += subcomplexes(ctx, "prism8")
     ctx.cov["subcomplexes"] = n
+    # 3. segment extraction: all domain subsets, and single / paired / nearly complete element selections on meshes with > 8 vertices
+    ns = 0
+    for name in (["screen3x3", "torus18", "lshape28"] if quick else ["screen3x3", "torus18", "lshape28", "cube12", "twocubes", "ushape", "nested"]):
+        ns += segment_sweep(ctx, name, quick)
+    ctx.cov["segment_extractions"] = ns
     # histories from a few sub-complexes (non-initial states)
     for b in (["octa[0,1,2,5]", "cube12[0,1,4,5,8]"] if quick else ["octa[0,1,2,5]", "cube12[0,1,4,5,8]", "cube12[0,3,6,9,11]", "screen2x2[0,1,2,5,6]", "torus18[0,1,2,3,4,5]"]):
         explore(ctx, b, _base(ctx, b), 2)
@@ -460,7 +499,8 @@ def run(ctx):
     return ctx.finish(
         rule="states = distinct (vertices, elements, domains) triples reached from catalogue meshes and ALL sub-complexes of "
         "octa/screen2x2/book3/cube12 (thorough: + torus18 bands, fan5, prism8) by <=2 (3) constructor steps "
-        "{4 relabelings, 4 dtype/order variants, refine, barycentric, 4 unions, segment extraction}; every state is a real Grid "
+        "{4 relabelings, 4 dtype/order variants, refine, barycentric, 4 unions, segment extraction}; grid_from_segments additionally for every "
+        "domain subset and every single / pair (triple) / all-but-one element selection of screen3x3, torus18, lshape28 (...); every state is a real Grid "
         "compared table by table with the brute-force reference; distinct = distinct canonical grids",
         extra={"bases": bases},
     )
